@@ -38,7 +38,6 @@ CLOCK_TABLE = {
     'ompl::geometric::PRM::solve': 'multi-threaded planner: grow/expand phases are time-sliced by design',
     'ompl::geometric::PRM::growRoadmap': 'public API taking a duration from the caller',
     'ompl::geometric::PRM::expandRoadmap': 'public API taking a duration from the caller',
-    'ompl::control::LTLPlanner::explore': 'time-sliced exploration by design (exploreTime_ seconds per lead); see the listed-not-decided entry',
     'ompl::geometric::PRM::constructRoadmap': 'multi-threaded planner: grow/expand phases are time-sliced by design',
     'ompl::geometric::GeneticSearch::solve': 'public API taking a time budget (GAIK)',
     'ompl::geometric::PathSimplifier::simplify': 'public API: simplify(path, double maxTime)',
@@ -344,7 +343,7 @@ def r20c(rep, F):
             rep.note('R20c triaged %s: %s' % (name, CLOCK_TABLE[name]))
             continue
         n += 1
-        rep.add('R20c', name, 'clock-use@%d' % fn.line(decision[0]), False, fn.where(decision[0]),
+        rep.add('R20c', name, 'clock-decides:' + decision[1].split(':')[0], False, fn.where(decision[0]),
                 'a clock value is used as %s: the planner\'s behaviour depends on wall-clock time although it is not in the triaged table'
                 % decision[1])
     if len(seen_table) < 5:
@@ -520,9 +519,6 @@ def run(rep):
     r20c(rep, F)
     nd = r20d(rep, F)
     r20e(rep, F)
-    rep.undecided('R20c', 'ompl::control::LTLPlanner::explore', 'clock-sliced', 'a single-threaded control planner whose inner loop runs for exploreTime_ '
-                  'seconds of wall-clock time per lead: by construction not reproducible under an evaluation-count budget; observed by the '
-                  'rule, not replayed (needs an LTL problem instance), therefore listed and not claimed as a finding')
     rep.undecided('R20x', 'ompl::RNG', 'bit-identical floating point', 'identical streams across compilers / libm versions is assumed by the property and '
                   'not decided')
     rep.undecided('R20x', 'ordered pointer-keyed containers', 'relative-address order', 'std::set / std::map keyed by pointers (LazyPRM vertices, FMT) '
